@@ -86,6 +86,16 @@ def names_level(ck, dist):
                 return corr
         elif a != h:
             dist["names"]["backends_differ_outside_common"] += 1
+            ma = model["adf"][i] if i < len(model["adf"]) else None
+            mh = model["hdf5"][i] if i < len(model["hdf5"]) else None
+            if ma is not None and ma == mh and ma.startswith("ok ") and a.startswith("ok ") and h.startswith("ok "):
+                # both back ends accept the name, the proved model (C03_names_same_when_both_accept) says they store the same
+                # name, and they do not: a concrete failing input, whatever else of the tie is broken
+                ck.violation({"level": "names", "op": op, "name": repr(b), "adf": a, "hdf5": h, "model_both": ma,
+                              "oracle": "ADF vs HDF5 on the same call: both accept the name and store different names, where "
+                                        "C03_names_same_when_both_accept says they store the same",
+                              "replay_hint": "echo '%s' | .build/h/c03_names /tmp/x.cgns adf|hdf5" % op})
+                return corr
         for be, line in (("adf", a), ("hdf5", h)):
             m = model[be][i] if i < len(model[be]) else "(none)"
             if m != line and len(corr) < 5:
